@@ -1131,6 +1131,26 @@ func (conf *Conf) Validate(l logger.Writer) error {
 		}
 	}
 
+	// users generated from deprecated credentials are subject to the same checks as authInternalUsers
+
+	if deprecatedCredentialsMode {
+		if conf.AuthMethod == AuthMethodInternal {
+			for _, u := range conf.AuthInternalUsers {
+				if u.User == "any" && u.Pass != "" {
+					return fmt.Errorf("'publishPass' and 'readPass' cannot be used without 'publishUser' and 'readUser'")
+				}
+			}
+		}
+
+		if conf.RTSP && slices.Contains(conf.RTSPAuthMethods, RTSPAuthMethod(auth.VerifyMethodDigestMD5)) {
+			for _, u := range conf.AuthInternalUsers {
+				if u.User.IsHashed() || u.Pass.IsHashed() {
+					return fmt.Errorf("when RTSP digest is enabled, hashed credentials cannot be used")
+				}
+			}
+		}
+	}
+
 	return nil
 }
 
